@@ -61,6 +61,8 @@ def gen_cases(rng, ctx):
         ends.append((proto, 4, 5000, 0))
         ends.append((proto, 5, 0, 0))
         if proto == 3:
+            # the end of the upload (FIN) and, 100 ms behind it, RESET_STREAM, with the destination not reading: a recorded finding
+            ends.append((proto, 7, 100, 0))
             # the reset right behind the last DATA frames: an endpoint that takes it for the end of the upload does so only when the
             # reset meets a partly read DATA frame in quiche's HTTP/3 layer, i.e. when the endpoint lags behind the client: with 1000-byte
             # frames and 300000 bytes about one round in ten, and hardly ever on a quiet machine; with 50000-byte frames and 1000000
@@ -88,10 +90,16 @@ ENDS = {
         "HTTP/3: RESET_STREAM), the destination then reads on and keeps its side open"),
     6: ("client-reset-behind-its-upload", "the client uploads %(n)d bytes in DATA frames of %(m)d bytes without a pause and resets its request stream right behind the last of them "
         "(RESET_STREAM, the connection lives on), the destination sends nothing and keeps its side open"),
+    7: ("client-reset-behind-its-fin", "the destination does not read for 3 s, the client uploads until nothing more is taken from it, ends its upload (FIN) and %(n)d ms later resets "
+        "the request stream (RESET_STREAM: the cancellation of a request whose body was sent to its end), the destination then reads on and keeps its side open"),
 }
 
 
 def known_finding(case, kind, msg, known):
+    if case.meta.get("ends") and case.meta["proto"] == 3 and case.meta["scen"] == 7 and kind == "violation":
+        for k in known.get("findings", []):
+            if k["property"] == "C02" and k["id"] == "h3-reset-behind-fin-is-an-end":
+                return k["id"]
     # HTTP/1.1 over TLS: the codec ends the whole session at the first end of stream from either side
     if case.meta.get("ends") and case.meta["proto"] == 1 and case.meta["scen"] in (0, 1, 2) and kind == "violation":
         for k in known.get("findings", []):
@@ -135,7 +143,7 @@ def judge_ends(case, impl, ctx):
         return [("disagree", "%s: %d bytes reached the destination before the client failed" % (what, up_got))]
     if m["scen"] == 6 and uploaded != m["n"]:
         return [("disagree", "%s: the client could hand over only %d bytes" % (what, uploaded))]
-    if m["scen"] == 5:
+    if m["scen"] in (5, 7):
         what += " (the client handed %d bytes to its transport)" % uploaded
         if uploaded == 0:
             return [("disagree", "%s: the tunnel took no byte at all" % what)]
@@ -148,7 +156,7 @@ def judge_ends(case, impl, ctx):
         ctx.setdefault("skipped_env", []).append(case.kind)
         return []
     if released == 0:
-        if m["scen"] in (5, 6) and up_end:
+        if m["scen"] in (5, 6, 7) and up_end:
             return [("violation", "%s: the destination saw %s after %d bytes, and %d ms later the endpoint still holds its connection to the destination open: "
                      "the client's failure is passed on as the end of its upload and the tunnel is not torn down" % (what, ends[up_end], up_got, waited))]
         return [("violation", "%s: %d ms after the client failed the endpoint still holds its connection to the destination open (the destination saw %s): the tunnel is not torn down"
